@@ -112,6 +112,8 @@ Section Exec.
   Definition set_w (s : xstate) (w : W) : xstate := {| xw := w; xt := xt s; xe := xe s; xn := xn s |}.
   Definition set_t (s : xstate) (t : tracer) : xstate := {| xw := xw s; xt := t; xe := xe s; xn := xn s |}.
 
+  Definition bump (s : xstate) : xstate := {| xw := xw s; xt := xt s; xe := xe s; xn := S (xn s) |}.
+
   Definition verr_of_text (s : string) : verr := if String.eqb s "out of gas" then VOog else VOther s.
 
   (** djpm.Aspect.transactionAdvice + runAspect: returns (ret, gas, error text) *)
@@ -124,7 +126,7 @@ Section Exec.
       let p' := {| j_from := j_from p; j_to := j_to p; j_index := j_index p; j_data := j_data p; j_value := j_value p;
                    j_gas := j_gas p; j_ret := j_ret p; j_errtext := j_errtext p |} in
       let '(r, g, e) := aspect (xn s) pre a gas p' in
-      let s := emit {| xw := xw s; xt := xt s; xe := xe s; xn := S (xn s) |} [EvFire pre a p'] in
+      let s := emit (bump s) [EvFire pre a p'] in
       let s := if asp_logger then emit s [EvAspExit pre g r e] else s in
       match e with
       | Some _ => (r, g, e, s)
@@ -196,6 +198,21 @@ Section Exec.
       else if is_homestead then (mk ret 0 (Some (VOther code_store_oog)), set_w s w0)
            else (mk ret (r_gas r) (Some (VOther code_store_oog)), s)
     | Some e => (mk ret (if is_revert e then r_gas r else 0) (Some e), set_w s w0)
+    end.
+
+  (** evm.go:334-346: a failed pre join point fails the frame; its leftover gas is handed back unless
+      the failure is (textually) out of gas *)
+  Definition pre_fail (pret : bytes) (pgas : N) (e : string) : cres :=
+    let err := verr_of_text e in
+    mk pret (match err with VOog => 0 | _ => pgas end) (Some err).
+  (** evm.go:371-386: the post join point's leftover always replaces the frame's gas; its failure
+      overrides the frame's error (and return data, unless it is out of gas) *)
+  Definition post_merge (r : cres) (qret : bytes) (qgas : N) (qerr : option string) : cres :=
+    match qerr with
+    | Some e => match verr_of_text e with
+                | VOog => mk (r_ret r) qgas (Some VOog)
+                | e' => mk qret qgas (Some e') end
+    | None => mk (r_ret r) qgas (r_err r)
     end.
 
   Definition max_depth : nat := 1024.
@@ -290,9 +307,8 @@ Section Exec.
               match perr with
               | Some e =>
                 (* 334-346 (after the fix): revert, keep the leftover unless out of gas *)
-                let err := verr_of_text e in
-                let g := match err with VOog => 0 | _ => pgas end in
-                close (mk pret g (Some err)) g (set_w s w0)
+                let r := pre_fail pret pgas e in
+                close r (r_gas r) (set_w s w0)
               | None =>
                 let fc := {| f_self := addr; f_code_addr := addr; f_caller := caller; f_value := value; f_input := input;
                              f_code := code; f_static := pstatic; f_create := false |} in
@@ -305,12 +321,7 @@ Section Exec.
                                      j_gas := r_gas r; j_ret := r_ret r;
                                      j_errtext := match r_err r with Some e => verr_text e | None => ""%string end |} in
                         let '(qret, qgas, qerr, s) := join_point false caller addr input value p1 (r_gas r) s in
-                        match qerr with
-                        | Some e => (match verr_of_text e with
-                                     | VOog => mk (r_ret r) qgas (Some VOog)
-                                     | e' => mk qret qgas (Some e') end, s)
-                        | None => (mk (r_ret r) qgas (r_err r), s)
-                        end
+                        (post_merge r qret qgas qerr, s)
                       else (r, s) in
                   let '(r', s') := tail w0 r s in close r' (r_gas r') s'
                 end
